@@ -701,7 +701,7 @@ bool HttpMessage::putFile(const String& path, int begin, int end)
 		Long size = file.size();
 		if (end == 0)
 			end = int(size - 1);
-		if (end <= begin || begin < 0 || end > size)
+		if (end <= begin || begin < 0 || end >= size)
 		{
 			setHeader("Content-Length", "0");
 			setHeader("Content-Range", String::f("bytes */%lli", size));
